@@ -23,6 +23,8 @@ def units(tier):
     for q in ("parse", "_parse_rtcm3", "_read_bytes", "_read_line", "_parse_ubx", "_parse_nmea", "read", "__init__", "_do_error"):
         us += func_units(f"{R}.{q}", tier)
     us += func_units("pyrtcm.rtcmmessage.RTCMMessage.__init__", tier)
+    from props.common import socket_units
+    us += socket_units(tier)  # 'the same raw frames in the same order' over socket-backed streams too
     from pyvc import clientrun
     us.append(clientrun.unit("parse_ignores_checksum_when_not_validating", clientrun.lemma_validate_off))
     from spec import api
